@@ -1052,6 +1052,21 @@ var ruleASCIIClass = &core.Rule{ID: "R11.4", Min: 256,
 			core.Bail("no ASCII shortcut in the plain sniffer")
 		}
 		g := p.ascii.Call.StaticCallee()
+		// every byte is looked at: a scan over a part of the input (content[1:], content[:n]) lets the rest pass unseen
+		for _, b := range g.Blocks {
+			for _, in := range b.Instrs {
+				sl, ok := in.(*ssa.Slice)
+				if !ok || sl.X != ssa.Value(g.Params[0]) {
+					continue
+				}
+				if (sl.Low != nil && !core.IsConstInt(sl.Low, 0)) || sl.High != nil {
+					if len(fde.FindRangeOver(g, sl)) > 0 {
+						s.Bad(g.Name()+": scans the whole input", c.Pos(sl.Pos()), "the ASCII test ranges over a part of its input only: the bytes left out are never checked, so text with a byte >= 0x80 (or a control byte) there is reported as utf-8 without validation")
+						return
+					}
+				}
+			}
+		}
 		_, tab, _, err := tabulateRange(c, g, g.Params[0], nil)
 		if err != nil {
 			core.Bail("ASCII test: %v", err)
